@@ -83,7 +83,16 @@ func runSolver(ctx context.Context, sp solverSpec, timeout time.Duration, file s
 }
 
 // Solve races the installed solvers on one query.
+// Hints: obligation name -> solver that decided it last time (committed in
+// /verif/baseline/hints.json); only the order in which solvers are tried
+// depends on it.
+var hints = map[string]string{}
+
 func Solve(query string, timeout time.Duration, scratch string, single bool) SolveResult {
+	return SolveHint(query, timeout, scratch, single, "")
+}
+
+func SolveHint(query string, timeout time.Duration, scratch string, single bool, hint string) SolveResult {
 	sum := sha256.Sum256([]byte(query))
 	h := hex.EncodeToString(sum[:])
 	if useCache {
@@ -105,8 +114,14 @@ func Solve(query string, timeout time.Duration, scratch string, single bool) Sol
 	if timeout < stage1 {
 		stage1 = timeout
 	}
-	ans, out := runSolver(context.Background(), solvers[0], stage1, file)
-	res := SolveResult{Answer: ans, Solver: solvers[0].name, Output: out}
+	first := solvers[0]
+	for _, sp := range solvers {
+		if sp.name == hint {
+			first = sp
+		}
+	}
+	ans, out := runSolver(context.Background(), first, stage1, file)
+	res := SolveResult{Answer: ans, Solver: first.name, Output: out}
 	if ans != "sat" && ans != "unsat" && !single {
 		// stage 2: race all
 		ctx, cancel := context.WithCancel(context.Background())
